@@ -205,9 +205,18 @@ func (m *Model) errorBranchReturns(s *Sink, rule string, fn *ssa.Function, c *ss
 		last := b.Instrs[len(b.Instrs)-1]
 		switch t := last.(type) {
 		case *ssa.Return:
-			if len(t.Results) == 0 || !carries(retSource(t, 0), 0) {
+			any := false
+			for i := range t.Results {
+				if carries(retSource(t, i), 0) {
+					any = true // a helper with several results hands the error up in one of them
+				}
+			}
+			if !any {
 				if bad == nil {
-					bad, why = t, "returns something that does not carry the error ("+valueDesc(retSource(t, 0))+")"
+					bad, why = t, "returns something that does not carry the error"
+					if len(t.Results) > 0 {
+						why += " (" + valueDesc(retSource(t, 0)) + ")"
+					}
 				}
 			}
 		case *ssa.Panic:
